@@ -187,15 +187,37 @@ var c13FourList = [][][2]int{
 	{{0, 1}, {1, 3}, {0, 2}, {2, 3}, {3, 0}},
 }
 
+// c13FourList2 is a second stated list of 4-node digraphs (param four=2), chosen
+// for the negative-cycle logic: cycles sharing a node, cycles that are not
+// reachable from node 0, cycles reached late, overlapping cycles.
+var c13FourList2 = [][][2]int{
+	// 0: figure eight: two 2-cycles sharing node 1, entered from 0
+	{{0, 1}, {1, 2}, {2, 1}, {1, 3}, {3, 1}},
+	// 1: a 2-cycle {2,3} that is NOT reachable from 0 but leads into 1
+	{{0, 1}, {2, 3}, {3, 2}, {2, 1}},
+	// 2: 3-cycle 1-2-3 downstream of 0, plus the chord 0 -> 3
+	{{0, 1}, {1, 2}, {2, 3}, {3, 1}, {0, 3}},
+	// 3: 2-cycle through the source with a tail
+	{{0, 1}, {1, 0}, {1, 2}, {2, 3}},
+	// 4: overlapping cycles 1-2 and 1-2-3 below a fan-out from 0
+	{{0, 1}, {0, 2}, {0, 3}, {1, 2}, {2, 3}, {3, 1}, {2, 1}},
+	// 5: bidirected star with centre 0
+	{{0, 1}, {1, 0}, {0, 2}, {2, 0}, {0, 3}, {3, 0}},
+}
+
 // c13Build makes the graph of the current case. shape 0: every digraph on
 // nnodes nodes (mask split); shape 1: the 4-node list. Weights are symbolic
 // reals, >= 0 if nonneg.
 func c13Build(nonneg, undirected bool) *c13Graph {
 	var g *c13Graph
-	if verifParam("four", 0) == 1 {
+	if four := verifParam("four", 0); four >= 1 {
 		g = c13New(4)
-		k := verifChoose("topo", verifParam("topolo", 0), verifParam("topohi", len(c13FourList)-1))
-		for _, e := range c13FourList[k] {
+		list := c13FourList
+		if four == 2 {
+			list = c13FourList2
+		}
+		k := verifChoose("topo", verifParam("topolo", 0), verifParam("topohi", len(list)-1))
+		for _, e := range list[k] {
 			g.adj[e[0]][e[1]] = true
 			if undirected {
 				g.adj[e[1]][e[0]] = true
